@@ -491,3 +491,44 @@ Fixpoint from_val (fuel : nat) (te : tenv) (h : list goval) (ty : gotype) (v : g
 Definition echo (fuel : nat) (te : tenv) (tname : str) (r : sx) : res sx :=
   do (v, st) <- to_go fuel te tname r;
   from_val fuel te (heap st) (TPtr tname) v.
+
+(* ---- histories on one record: convert, change it with hset, convert again ------------------
+   jsonmsgp.go:toGoHelper — a record that already has a shadow struct attached (from an earlier (togo r),
+   or because it was converted as a pointer / interface field of a parent: src.GoShadowStruct = checkPtrStruct)
+   is converted again INTO that same object (newStruct = asHash.GoShadowStruct), with a fresh dedup cache.
+   callgo.go converts a method argument into a fresh object and does not attach it to the top record.
+   shadows: record identity -> heap location of the attached object. *)
+Definition shadows := list (Z * nat).
+
+Definition shadow_find (id : Z) (sh : shadows) : option nat :=
+  match find (fun p => fst p =? id) sh with Some p => Some (snd p) | None => None end.
+
+(* src.ShadowSet for every record converted into a pointer or interface slot during the call = the cache *)
+Definition nested_shadows (c : list (Z * (gotype * goval))) : shadows :=
+  flat_map (fun e => match snd (snd e) with
+                     | GPtr (Some l) => [(fst e, l)]
+                     | GIface (Some (_, l)) => [(fst e, l)]
+                     | _ => [] end) c.
+
+Definition hist_convert (fuel : nat) (te : tenv) (attach : bool) (tname : str) (id : Z) (r : sx)
+           (h : list goval) (sh : shadows) : res (goval * (list goval * shadows)) :=
+  let old := if attach then match shadow_find id sh with
+                             | Some loc => match nth_error h loc with Some v => Some (loc, v) | None => None end
+                             | None => None end
+             else None in
+  match (match old with Some (_, v) => Some v | None => zero_of fuel te (TStruct tname) end) with
+  | None => OutOfModel
+  | Some cur =>
+    do (b, st1) <- conv fuel te true (TStruct tname) cur r (mkSt h []);
+    let nsh := nested_shadows (cache st1) in
+    match old with
+    | Some (loc, _) =>
+      match set_nth (heap st1) loc b with
+      | Some h' => Ok (GPtr (Some loc), (h', (id, loc) :: nsh ++ sh))
+      | None => OutOfModel
+      end
+    | None =>
+      let (loc, st2) := alloc b st1 in
+      Ok (GPtr (Some loc), (heap st2, (if attach then [(id, loc)] else []) ++ nsh ++ sh))
+    end
+  end.
